@@ -186,6 +186,8 @@ func main() {
 		os.Exit(selftest(os.Args[2:]))
 	case "mutants":
 		os.Exit(mutants(os.Args[2:]))
+	case "benign":
+		os.Exit(benign(os.Args[2:]))
 	case "script":
 		// debugging aid: print the script and outcome of one run index
 		if len(os.Args) < 4 {
@@ -1114,4 +1116,66 @@ func quiet(f func() int) int {
 	os.Stdout, os.Stderr = null, null
 	defer func() { os.Stdout, os.Stderr = so, se }()
 	return f()
+}
+
+// benign: the other half of the sensitivity proof. Every patch listed in
+// /verif/mutants/benign.json is a property-preserving edit; applied to a
+// scratch copy of /repo, every claimed check must still exit 0.
+func benign(args []string) int {
+	b, err := os.ReadFile(filepath.Join(verifDir, "mutants", "benign.json"))
+	if err != nil {
+		fatal2("%v", err)
+	}
+	var raw []map[string]string
+	if err := json.Unmarshal(b, &raw); err != nil {
+		fatal2("%v", err)
+	}
+	only := map[string]bool{}
+	for _, a := range args {
+		only[a] = true
+	}
+	alarms := 0
+	for _, m := range raw {
+		name := m["name"]
+		if len(only) > 0 && !only[name] {
+			continue
+		}
+		base := os.Getenv("TMPDIR")
+		if base == "" {
+			base = os.TempDir()
+		}
+		d, err := os.MkdirTemp(base, "i2psim-benign-")
+		if err != nil {
+			fatal2("%v", err)
+		}
+		if err := copyTree("/repo", d); err != nil {
+			fatal2("%v", err)
+		}
+		cmd := exec.Command("patch", "-p1", "-s", "-i", filepath.Join(verifDir, "mutants", name+".patch"))
+		cmd.Dir = d
+		if out, err := cmd.CombinedOutput(); err != nil {
+			fmt.Printf("benign %-48s PATCH DOES NOT APPLY: %s\n", name, strings.TrimSpace(string(out)))
+			alarms++
+			os.RemoveAll(d)
+			continue
+		}
+		var bad []string
+		for _, p := range sortedProps() {
+			if c := quiet(func() int { return check(p, "quick", d, false) }); c != 0 {
+				bad = append(bad, fmt.Sprintf("%s=exit %d", p, c))
+			}
+		}
+		if len(bad) == 0 {
+			fmt.Printf("benign %-48s all %d checks stay at exit 0\n", name, len(props))
+		} else {
+			fmt.Printf("benign %-48s ALARM: %s\n", name, strings.Join(bad, " "))
+			alarms += len(bad)
+		}
+		os.RemoveAll(d)
+	}
+	fmt.Printf("benign: %d alarms\n", alarms)
+	if alarms > 0 {
+		return 1
+	}
+	return 0
 }
